@@ -95,8 +95,15 @@ def py_table(ent, kind):
         e = ent[POOL.id(v)]
         if e[0] == "raise":
             raise UserError(e[1])
-        return e[1] if kind == "pred" else POOL.val(e[1])
+        if kind == "pred":
+            # same truthiness, not always a bool (user predicates like `lambda x: x % 2` or `re.match`)
+            reps = PRED_REPS[sum(ent[j][1] is True for j in ent) % len(PRED_REPS)]
+            return reps[0] if e[1] else reps[1]
+        return POOL.val(e[1])
     return f
+
+
+PRED_REPS = [(True, False), (1, 0), ("x", None), ([0], ""), (True, False)]
 
 
 def g_val_table(ent, kind):
